@@ -70,6 +70,8 @@ pub fn run(ctx: &mut Ctx) {
     // --- u8 items
     let mut sh = Shards::new(&ctx.out, "u8", imports, "@c15case N", evals("N.eqb"), "fun c => merge_necessity N.eqb (c_v c) (c_o c)", 4000);
     let mut add_u8 = |sh: &mut Shards, v: &L, o: &L, kind: &str, hist: &mut Hist, samples: &mut Vec<J>| {
+        // logging on for every other pair: the result may not depend on the log level
+        log::set_max_level(if (v.len() + 2 * o.len()) % 2 == 0 { log::LevelFilter::Trace } else { log::LevelFilter::Off });
         let r = from_nec(&merge_necessity(to_nec(v), to_nec(o)));
         let t = |l: &L| coq_list(l, |(m, x)| format!("({},{})", coq_tag(*m), x));
         let d = json::obj(vec![("kind", json::s(kind)), ("item_type", json::s("u8")), ("vec", jl(v)), ("other", jl(o)), ("impl", jl(&r))]);
@@ -166,6 +168,7 @@ pub fn run(ctx: &mut Ctx) {
         };
         let v = gen(&mut rng);
         let o = gen(&mut rng);
+        log::set_max_level(if (v.len() + 2 * o.len()) % 2 == 0 { log::LevelFilter::Trace } else { log::LevelFilter::Off });
         let r = from_nec(&merge_necessity(to_nec(&v), to_nec(&o)));
         let t = |l: &Vec<(bool, String)>| coq_list(l, |(m, x)| format!("({},{})", coq_tag(*m), coq_str(x)));
         let d = json::obj(vec![("kind", json::s("random-nodup-string")), ("item_type", json::s("String")), ("vec", jl(&v)), ("other", jl(&o)), ("impl", jl(&r))]);
